@@ -22,6 +22,7 @@ TRUSTED_BASE = [
     "Coq 8.16.1 kernel as run by coqc (vm_compute used in computational lemmas; native_compute not used)",
     "axioms: none (every Print Assumptions must say 'Closed under the global context')",
     "harness/gen_consts.py (translator of constants, enums and struct formats from the live modules)",
+    "harness/gen_logic.py (ast translator of config.Service.matches_* and _SessionStorage.check_received/assign_outgoing to Gallina; Proofs/GenEquiv.v proves the translation equal to the hand-written model; the mapping of the SOMEIPSDEntry properties service_minor_version / eventgroup_id to the raw field is part of the translator)",
     "Coq extraction to OCaml with ExtrOcamlBasic only (bool, option, unit, list, prod, sumbool, sumor); N kept inductive; no Extract Constant of ours",
     "runner/driver.ml (s-expression parser/printer) and ocamlfind ocamlopt 4.13.1",
     "the correspondence harness (harness/*.py, virtual-time loop, canonicaliser) and CPython 3.12 with asyncio/struct/ipaddress/dataclasses",
@@ -75,6 +76,7 @@ class Build:
 
     def __init__(self):
         self.consts_status = "regenerated"
+        self.logic_status = "n/a"
         self.make_ok = True
         self.make_log = ""
         self.runner_path = os.path.join(VERIF, "runner", "driver")
@@ -101,6 +103,15 @@ class Build:
             self.consts_changed = rc2 != 0
             if self.consts_changed:
                 self.consts_status = "regenerated (differs from the committed constants)"
+        # the translated decision logic (config.py matchers, _SessionStorage): regenerated from the source text as well
+        logic = os.path.join(VERIF, "theories/Generated/LogicGen.v")
+        rc, out = sh(f"/venv/bin/python -B harness/gen_logic.py {logic}", env=env)
+        if rc != 0:
+            self.logic_status = "fallback (translation aborted: %s) - the translated-source tie is OFF for this run" % out.strip()[-300:]
+            sh("git checkout -- theories/Generated/LogicGen.v")
+        else:
+            rc2, _ = sh("git diff --quiet -- theories/Generated/LogicGen.v")
+            self.logic_status = "regenerated" + (" (differs from the committed translation)" if rc2 != 0 else "")
         if not os.path.exists(os.path.join(VERIF, "Makefile.coq")):
             sh("coq_makefile -f _CoqProject -o Makefile.coq")
         rc, out = sh("make -k coq JOBS=16 2>&1 | tail -60", timeout=3400)
@@ -307,6 +318,7 @@ class Ctx:
             model_impl_differences=len(self.mismatches),
             known_findings_confirmed=dict(self.known_hits),
             generated_consts=self.build.consts_status if self.build else "n/a",
+            generated_logic=self.build.logic_status if self.build else "n/a",
             model_runner_calls=self.model.calls if self.model else 0,
             coqchk_axioms=pr.get("coqchk_axioms", "not run (thorough tier only)"),
         )
